@@ -222,7 +222,7 @@ theorem contentClean_byte (rcfg : Rx.Config) (cfg : Config) (inp : Bytes) (b : N
 compiled expression is an LF line anchor or an ASCII word assertion (`allLooks safeLookLF`, decidable on the
 HIR) and the prefilter literals are non-empty and terminator-free, the built matcher is line safe on EVERY
 input (`lineSafe_of_contract` + `bridge_contract`: clauses (a), (b), (c) of the matcher-level half and the
-leftmost-engine contract), so the fast path reports exactly the lines whose content the user's expression
+engine contract `EngineSpec`: the reported match is a match and the engine never jumps over one — it need not be the leftmost), so the fast path reports exactly the lines whose content the user's expression
 matches. Outside the guard clause (b) fails (F1, F2, F24). -/
 theorem C01_fast_safe_looks (isWord : Nat → Bool) (rcfg : Rx.Config) (pats : List Bytes) (translated : Rx.Hir)
     (accelerated : Bool) (optimize : Rx.Seq → Rx.Seq) (norm : Rx.Hir → Rx.Hir) (shortest : Bytes → Option Nat)
